@@ -19,6 +19,8 @@
 # IN THE SOFTWARE.
 from typing import Mapping
 
+from ..configuration_error import ConfigurationError
+
 
 class ExpVariables(object):
 
@@ -34,7 +36,13 @@ class ExpVariables(object):
     def _get(config: dict, key: str, default: list) -> list:
         # a key without a value, i.e. None, does not define the list
         value = config.get(key)
-        return default if value is None else value
+        if value is None:
+            return default
+        if isinstance(value, list) and any(isinstance(v, float) and v != v for v in value):
+            # nan is not equal to itself: a run with such a value is never found again
+            raise ConfigurationError(
+                "The %s setting contains .nan, which cannot be used to identify a run." % key)
+        return value
 
     @classmethod
     def empty(cls):
